@@ -56,7 +56,10 @@ def _classes():
     class T2(TracerMixin, Base):
         TRACE_VARIABLES = ['B', 'A']
 
-    return Base, T, T2
+    class T0(TracerMixin, Base):
+        TRACE_VARIABLES = []       # rare but legal: trace=True then records labelled snapshots of zero variables
+
+    return Base, T, T2, T0
 
 
 def make(cls, n, scripts, tol, before_fault=None, after_fault=None):
@@ -210,12 +213,12 @@ def full_check(ctx, cls, n, scripts, opts, spec, entry, arg, tol, faults, case, 
 
 
 def run_shard(ctx):
-    Base, T, T2 = classes()
+    Base, T, T2, T0 = classes()
     rng = ctx.rng('c17')
     count = ctx.pick(250, 6000)
     for i in range(count):
         n = rng.choice([3, 4, 5])
-        cls = rng.choice([T, T, T2])
+        cls = rng.choice([T, T, T, T2, T2, T0])
         spec = rng.choice([True, True, ['A'], ['B', 'A'], ['X', 'A', 'B'], 'A', 'B', False, None])
         entry = rng.choice(['solve', 'solve', 'solve_t', 'solve_t', 'solve_period'])
         arg = None if entry == 'solve' else (rng.randrange(-n, n) if entry == 'solve_t' else rng.randrange(n))
@@ -312,8 +315,8 @@ def replay(ctx, case):
     if case.get('kind') == 'parser':
         ctx.inconclusive_because('parser cases: re-run the shard with the same VERIF_SEED')
         return
-    Base, T, T2 = classes()
-    cls = {'T': T, 'T2': T2}[case['cls']]
+    Base, T, T2, T0 = classes()
+    cls = {'T': T, 'T2': T2, 'T0': T0}[case['cls']]
     scripts = {int(k): [tuple(p) for p in v] for k, v in case['scripts'].items()}
     ctx.evaluation(case, nontrivial=True)
     full_check(ctx, cls, case['n'], scripts, case['opts'], case['trace'], case['entry'], case['arg'], case['opts']['tol'], tuple(case['faults']), case, case['repeat'])
